@@ -1,6 +1,7 @@
 package props
 
 import (
+	"go/constant"
 	"go/token"
 	"go/types"
 	"strings"
@@ -746,6 +747,49 @@ func c06(c *an.Ctx) {
 		})
 		if n == 0 {
 			o.Fail(p.Pos(fn.Pos()), "runOnService no longer builds the per-service key objects")
+		}
+	})
+
+	c.Check("R-ORDER", "schema sync: the entry for the gateway's own introspection client is written after the fetched schemas (the executor map the syncer ranges over contains that client, so an earlier entry is overwritten by whatever the client answers - the previous merged schema)", 1, func(o *an.O) {
+		fn := c.NeedFunc(fed, "(*IntrospectionSchemaSyncer).FetchPlannerAndSchema")
+		fedPkg := p.Pkg(fed)
+		an.Need(fedPkg != nil, "package federation")
+		obj, ok := fedPkg.Pkg.Scope().Lookup("IntrospectionClientName").(*types.Const)
+		an.Need(ok, "federation.IntrospectionClientName")
+		clientName := constant.StringVal(obj.Val())
+		var own, fetched []ssa.Instruction
+		an.Instrs(fn, func(i ssa.Instruction) {
+			mu, ok := i.(*ssa.MapUpdate)
+			if !ok {
+				return
+			}
+			mt, ok := mu.Map.Type().Underlying().(*types.Map)
+			if !ok {
+				return
+			}
+			if n := an.NamedOf(mt.Elem()); n == nil || n.Obj().Name() != "IntrospectionQueryResult" {
+				return
+			}
+			if k, isConst := an.ConstString(mu.Key); isConst {
+				if k == clientName {
+					own = append(own, i)
+				}
+				return
+			}
+			fetched = append(fetched, i)
+		})
+		if len(own) == 0 || len(fetched) == 0 {
+			o.Fail(p.Pos(fn.Pos()), "FetchPlannerAndSchema must collect the fetched schemas by service name and add the introspection client's own (found %d / %d writes)", len(fetched), len(own))
+			return
+		}
+		for _, w := range own {
+			o.Site(w)
+			reach := an.Reach(fn, w, nil)
+			for _, f := range fetched {
+				if reach[f] {
+					o.FailAt(w, "the introspection client's schema entry is written before the loop that stores the fetched schemas by service name: the executors include the gateway's own introspection client, so from the second sync on its answer (the previous merged schema) replaces this entry and every field is also attributed to the introspection client")
+				}
+			}
 		}
 	})
 
